@@ -94,6 +94,88 @@ def replay_h_family(record):
     return None
 
 
+# ---------------------------------------------------------------------------------------------------
+# token filtering: which tokens are skipped is the user's choice (skip_tokens), incl. "nothing"
+# ---------------------------------------------------------------------------------------------------
+SKIP_TOKENIZER = r"""
+    (?P<SPACE>\s+)
+    |(?P<COMMENT>\#[a-z]*)
+    |(?P<X>x)
+    |(?P<SEMI>;)
+"""
+SKIP_PRODS = {"E": [("ITEM", "E"), None], "ITEM": [("X", "GAP", "GAP", "SEMI")], "GAP": [("SPACE",), ("COMMENT",), None]}
+SKIP_CHOICES = [None, set(), [], {"SPACE"}, {"COMMENT"}, ("SPACE", "COMMENT"), {"X"}]
+SKIP_ALPHABET = ["x", " ", "#c", ";"]
+
+
+def _skip_case(skip_i: int, text: str) -> None:
+    import re
+    import ak.llparser as L
+    skip = SKIP_CHOICES[skip_i]
+    kw = {} if skip is None else {"skip_tokens": skip}
+    parser = L.LLParser(SKIP_TOKENIZER, productions={k: list(v) for k, v in SKIP_PRODS.items()}, **kw)
+    eff = {"SPACE", "COMMENT"} if skip is None else set(skip)           # documented default
+    rx = re.compile(SKIP_TOKENIZER, re.VERBOSE)
+    toks, pos = [], 0
+    while pos < len(text):
+        m = rx.match(text, pos)
+        toks.append((m.lastgroup, m.group(m.lastgroup)))
+        pos = m.end()
+    want = [(n, v) for n, v in toks if n not in eff]
+    try:
+        # (given as a list of lines: a str input has the trailing white space of every line removed before tokenizing)
+        root = parser.parse([text] if text != text.rstrip() else text, do_cleanup=False)
+    except L.ParsingError:
+        return
+    leaves = []
+
+    def walk(node):
+        if node.name in SKIP_PRODS:
+            kids = tuple(c.name for c in (node.value or []))
+            if kids not in [tuple(a) if a else () for a in SKIP_PRODS[node.name]]:
+                raise Violation(f"bad-tree :: skip_tokens={skip!r} text {text!r}: node {node.name} with children {kids} is not a production")
+            for c in (node.value or []):
+                walk(c)
+        else:
+            leaves.append((node.name, node.value))
+    if root.name != "E":
+        raise Violation(f"bad-tree :: skip_tokens={skip!r} text {text!r}: root is {root.name}")
+    walk(root)
+    if leaves != want:
+        raise Violation(f"skipped-tokens :: skip_tokens={skip!r} text {text!r}: leaves {leaves} are not the non-skipped tokens {want}")
+
+
+def h_skip_tokens(skip_i: int, c0: int, shard=None) -> None:
+    """every text of <= n symbols over {x, ' ', '#c', ';'} under every skip_tokens choice (first symbol and choice: z3 variables)"""
+    import itertools
+    from vf.xh import concrete
+    n = shard["n"]
+    reject_unless(0 <= skip_i < len(SKIP_CHOICES) and 0 <= c0 < len(SKIP_ALPHABET))
+    skip_i, c0 = realize(skip_i), realize(c0)
+    with concrete():
+        for k in range(0, n):
+            for rest in itertools.product(SKIP_ALPHABET, repeat=k):
+                _skip_case(skip_i, SKIP_ALPHABET[c0] + "".join(rest))
+        _skip_case(skip_i, "")
+
+
+def replay_h_skip_tokens(record):
+    import re
+    msg = record.get("message") or ""
+    m = re.search(r"skip_tokens=(.*?) text ('.*?'|\".*?\"):", msg)
+    if not m:
+        return "cannot parse the failing case"
+    import ast
+    skip = eval(m.group(1), {"set": set})      # one of SKIP_CHOICES, printed by repr
+    text = ast.literal_eval(m.group(2))
+    idx = [i for i, c in enumerate(SKIP_CHOICES) if c == skip and type(c) is type(skip)]
+    try:
+        _skip_case(idx[0], text)
+    except Violation as e:
+        return str(e)
+    return None
+
+
 def jobs(tier: str) -> List[Job]:
     t = tier == "thorough"
     js = []
@@ -104,4 +186,5 @@ def jobs(tier: str) -> List[Job]:
                 js.append(Job(__name__, "h_family", shard={"family": fam, "maxlen": MAXLEN[tier], "h0": h0}, budget_s=1500 if t else 110, label=f"family:{fam}:h0={h0}", must_exhaust=True, allow_vacuous=True))
         else:
             js.append(Job(__name__, "h_family", shard={"family": fam, "maxlen": MAXLEN[tier]}, budget_s=1500 if t else 110, label=f"family:{fam}", must_exhaust=True, allow_vacuous=True))
+    js.append(Job(__name__, "h_skip_tokens", shard={"n": 7 if t else 6}, budget_s=900 if t else 100, label="skip-tokens", must_exhaust=True))
     return js
